@@ -355,6 +355,29 @@ func cmdCheck(args []string) {
 		b, _ := json.MarshalIndent(ledger, "", " ")
 		_ = os.WriteFile(filepath.Join(*verif, "ledger.json"), b, 0o644)
 	}
+	// bounded stand-ins for assumed repository functions (labelled bounded, never proved)
+	var bounded []map[string]interface{}
+	for _, name := range boundedDrivers[*prop] {
+		cases := 2000
+		if *tier == "thorough" {
+			cases = 200000
+		}
+		n, obs, raw := runBounded(name, *repo, *verif, replayDir, seed, cases)
+		rec := map[string]interface{}{"function": name, "kind": "bounded differential check against an independent reference (not a proof)", "cases": n, "seed": seed}
+		switch {
+		case obs != "":
+			rec["result"] = "disagreement"
+			p := writeReplay("bounded-"+name, map[string]interface{}{"property": *prop, "obligation": "bounded:" + name, "observed": obs, "driver": filepath.Join(*verif, "replaydrv", "bounded_"+name+".go.txt"), "output": raw})
+			violate("bounded:"+name, p, true, "the real function disagrees with the reference: "+firstLine(obs))
+		case n == 0:
+			rec["result"] = "could not run"
+			p := writeReplay("bounded-"+name, map[string]interface{}{"property": *prop, "obligation": "bounded:" + name, "error": "the bounded driver did not run to completion", "output": raw})
+			violate("bounded:"+name, p, false, "the bounded stand-in for an assumed contract could not be run")
+		default:
+			rec["result"] = "agreed on all cases"
+		}
+		bounded = append(bounded, rec)
+	}
 	sort.Slice(slows, func(i, j int) bool { return slows[i].Secs > slows[j].Secs })
 	if len(slows) > 5 {
 		slows = slows[:5]
@@ -393,6 +416,7 @@ func cmdCheck(args []string) {
 		"samples": samples,
 		"known_findings_hit": keys(knownHit),
 		"tool_errors": e.Errors,
+		"bounded_stand_ins": bounded,
 		"engine_stats": e.Stats,
 		"explanation": "Obligations are generated by symbolic execution of go/ssa (naive form) of /repo's current working tree against the //@ contracts in contracts_verif.go; each is decided by an SMT query (bitvector-exact integers). 'discharged' counts obligations whose every sub-query was answered unsat.",
 	}
@@ -463,6 +487,44 @@ var replayDrivers = map[string]string{
 	"validWireCloseCode": "validWireCloseCode", "(CloseError).bytesErr": "bytesErr",
 	"parseClosePayload": "parseClosePayload", "(*Conn).SetReadLimit": "SetReadLimit",
 	"(*Conn).readLoop": "readLoop", "(*Conn).handleControl": "handleControl", "(*msgReader).Read": "msgReaderRead",
+}
+
+// boundedDrivers: bounded stand-ins (never counted as proved) for repository functions whose
+// contracts are assumed because the verifier cannot reach them. Each is a Go test injected
+// with go test -overlay that compares the real function with an independent reference on a
+// stated number of cases.
+var boundedDrivers = map[string][]string{
+	"C11": {"secWebSocketAccept", "headerTokens"},
+	"C13": {"secWebSocketAccept", "headerTokens"},
+	"C14": {"headerTokens"},
+}
+
+// runBounded runs one bounded driver; it returns the number of cases, the observation if the
+// real code disagreed with the reference, and the raw output.
+func runBounded(name, repo, verif, replayDir string, seed int, cases int) (int, string, string) {
+	absRepo, _ := filepath.Abs(repo)
+	ov := map[string]interface{}{"Replace": map[string]string{
+		filepath.Join(absRepo, "zz_gvcbounded_test.go"): filepath.Join(verif, "replaydrv", "bounded_"+name+".go.txt"),
+	}}
+	ovPath := filepath.Join(replayDir, "bounded_"+name+".overlay.json")
+	b, _ := json.Marshal(ov)
+	_ = os.WriteFile(ovPath, b, 0o644)
+	cmd := exec.Command("go", "test", "-v", "-overlay", ovPath, "-vet=off", "-count=1", "-timeout", "120s", "-run", "^TestGvcBounded$", ".")
+	cmd.Dir = absRepo
+	cmd.Env = append(os.Environ(), "GOFLAGS=-mod=mod", "GOPROXY=off", "GOSUMDB=off", "GOTOOLCHAIN=local",
+		"VERIF_SEED="+strconv.Itoa(seed), "GVC_BOUNDED_CASES="+strconv.Itoa(cases))
+	out, _ := cmd.CombinedOutput()
+	n := 0
+	obs := ""
+	for _, ln := range strings.Split(string(out), "\n") {
+		if strings.HasPrefix(ln, "BOUNDED-OK cases=") {
+			n, _ = strconv.Atoi(strings.TrimPrefix(ln, "BOUNDED-OK cases="))
+		}
+		if strings.HasPrefix(ln, "REPLAY-CONFIRMED:") {
+			obs = strings.TrimSpace(strings.TrimPrefix(ln, "REPLAY-CONFIRMED:"))
+		}
+	}
+	return n, obs, string(out)
 }
 
 var modelPair = regexp.MustCompile(`\(([^\s()]+) (#x[0-9a-fA-F]+|#b[01]+|true|false|\(_ bv\d+ \d+\))\)`)
